@@ -24,7 +24,7 @@ import (
 )
 
 var gapSites = []string{"wt.afterList", "wt.beforeUpdate", "sync.afterCopy", "auth.afterSave", "as.gap1", "as.gap2",
-	"stats.afterUnlock", "order.gap", "migrate.beforeLock", "archive.beforeFile"}
+	"stats.afterUnlock", "order.gap", "migrate.beforeLock", "archive.beforeFile", "equipment.afterUnlock", "recent.afterUnlock", "as.get.afterUnlock"}
 
 var gapOps = []string{"banTarget", "authNew", "report", "equivocate", "rotate", "register", "srvBan"}
 
@@ -139,6 +139,12 @@ func runInterleaveCell(dir string, spec icellSpec, variant int, seed int64, r *e
 			setClock(off + 3201)
 			return fmt.Sprintf("rotations=%d", drv.StepRotation())
 		}
+	case "equipment.afterUnlock":
+		trig = w.prep("equipment")
+	case "recent.afterUnlock":
+		trig = w.prep("recent")
+	case "as.get.afterUnlock":
+		trig = w.prep("asGet")
 	case "archive.beforeFile":
 		trig = w.prep("archive")
 		occ = int64(1 + (spec.Idx+variant)%6)
@@ -328,6 +334,7 @@ func runInterleaveCell(dir string, spec icellSpec, variant int, seed int64, r *e
 	} else {
 		r.Count("interleave.state_equal_model", 1)
 	}
+	apiAgreesWithState(w, snap, "interleave cell "+name, replay)
 	r.Sample(map[string]interface{}{"site": spec.Site, "op": spec.Op, "injected": opDesc, "trigger_result": tres})
 }
 
